@@ -1,5 +1,6 @@
 import O4.Lemmas.Socks5Handshake
 import O4.Lemmas.Socks5Target
+import O4.Lemmas.Socks5IPv6
 /-!
 # C17 — the SOCKS5 front end hands the transport exactly the target and arguments tor sent
 
@@ -240,37 +241,55 @@ example : (run [[5, 1, 0], [5, 1, 0, 1, 10, 0, 0, 1, 0, 80]] true).outcome
 
 /-! ## the target names the destination unambiguously -/
 
-/-
-UNPROVED (full statement `target_injective`): for every address type, `(addr, port) ↦ Target` is
-injective on valid addresses, i.e. also
-  `∀ raw raw', raw.length = 16 → raw'.length = 16 → ipString16 raw = ipString16 raw' → raw = raw'`
-(the RFC 5952 zero-run compression of `net.IP.String()` loses nothing).  Proved below: IPv4 and
-domain names completely; for IPv6 the reduction to that one statement about `ipString16`.  The
-harness reads every generated IPv6 target back with `net.ParseIP` (S oracle), which samples it.
--/
-/-- **per address type the target determines address and port** (IPv4, domain; IPv6 up to the
-    injectivity of `net.IP.String()`): the port is the decimal number after the last colon. -/
-theorem target_injective_partial :
-    (∀ a b c d a' b' c' d' : UInt8, ∀ p p' : Nat,
-      joinTarget (Addr.v4 a b c d).host p = joinTarget (Addr.v4 a' b' c' d').host p' →
-      a = a' ∧ b = b' ∧ c = c' ∧ d = d' ∧ p = p') ∧
-    (∀ n n' : Bytes, ∀ p p' : Nat,
-      joinTarget (Addr.domain n).host p = joinTarget (Addr.domain n').host p' → n = n' ∧ p = p') ∧
-    (∀ raw raw' : Bytes, ∀ p p' : Nat,
-      joinTarget (Addr.v6 raw).host p = joinTarget (Addr.v6 raw').host p' →
-      ipString16 raw = ipString16 raw' ∧ p = p') := by
-  refine ⟨?_, ?_, ?_⟩
-  · intro a b c d a' b' c' d' p p' e
-    obtain ⟨h, hp⟩ := joinTarget_injective e
-    obtain ⟨h1, h2, h3, h4⟩ := ipv4String_injective h
-    exact ⟨h1, h2, h3, h4, hp⟩
-  · intro n n' p p' e
-    exact joinTarget_injective e
-  · intro raw raw' p p' e
-    obtain ⟨h, hp⟩ := joinTarget_injective e
-    have h' : ipString16 raw ++ [RBR] = ipString16 raw' ++ [RBR] := by
-      simpa [Addr.host] using h
-    exact ⟨List.append_cancel_right h', hp⟩
+/-- **`net.IP.String()` loses nothing on 16-byte addresses**: the RFC 5952 text form (lower-case
+    hex groups without leading zeros, the first longest run of ≥ 2 zero groups elided as `::`, the
+    IPv4-mapped range printed as a dotted quad) determines the address.  Proved with a decoder
+    that is a left inverse of the formatter (`O4/Lemmas/Socks5IPv6.lean`). -/
+theorem ipv6_text_injective (raw raw' : Bytes) (h : raw.length = 16) (h' : raw'.length = 16)
+    (e : ipString16 raw = ipString16 raw') : raw = raw' :=
+  ipString16_injective raw raw' h h' e
+
+example : ipString16 [32, 1, 13, 184, 0, 0, 0, 0, 0, 0, 0, 0, 0, 0, 0, 1]
+    = [50, 48, 48, 49, 58, 100, 98, 56, 58, 58, 49] := by decide        -- "2001:db8::1"
+example : ipString16 [0, 0, 0, 0, 0, 0, 0, 0, 0, 0, 255, 255, 192, 0, 2, 1]
+    = [49, 57, 50, 46, 48, 46, 50, 46, 49] := by decide                -- "192.0.2.1"
+example : decode6 [50, 48, 48, 49, 58, 100, 98, 56, 58, 58, 49] = [8193, 3512, 0, 0, 0, 0, 0, 1] := by
+  decide
+
+/-- **Per address type, `(address, port) ↦ Request.Target` is injective** on valid addresses
+    (IPv4; domain names of 1..255 arbitrary bytes; 16-byte IPv6 addresses, bracketed): the port is
+    the decimal number after the last colon, and the host text determines the address. -/
+theorem target_injective (a a' : Addr) (ha : a.Valid) (ha' : a'.Valid) (hty : a.atyp = a'.atyp)
+    (p p' : Nat) (e : joinTarget a.host p = joinTarget a'.host p') : a = a' ∧ p = p' := by
+  obtain ⟨h, hp⟩ := joinTarget_injective e
+  refine ⟨?_, hp⟩
+  cases a with
+  | v4 a b c d =>
+    cases a' with
+    | v4 a' b' c' d' =>
+      obtain ⟨h1, h2, h3, h4⟩ := ipv4String_injective h
+      rw [h1, h2, h3, h4]
+    | domain n' => exact absurd hty (by simp only [Addr.atyp]; decide)
+    | v6 raw' => exact absurd hty (by simp only [Addr.atyp]; decide)
+  | domain n =>
+    cases a' with
+    | v4 a' b' c' d' => exact absurd hty (by simp only [Addr.atyp]; decide)
+    | domain n' => simp only [Addr.host] at h; rw [h]
+    | v6 raw' => exact absurd hty (by simp only [Addr.atyp]; decide)
+  | v6 raw =>
+    cases a' with
+    | v4 a' b' c' d' => exact absurd hty (by simp only [Addr.atyp]; decide)
+    | domain n' => exact absurd hty (by simp only [Addr.atyp]; decide)
+    | v6 raw' =>
+      have h' : ipString16 raw ++ [RBR] = ipString16 raw' ++ [RBR] := by
+        simpa [Addr.host] using h
+      rw [ipv6_text_injective raw raw' ha ha' (List.append_cancel_right h')]
+
+/-- non-vacuity: two valid addresses of one type -/
+example : (Addr.v6 [32, 1, 13, 184, 0, 0, 0, 0, 0, 0, 0, 0, 0, 0, 0, 1]).Valid ∧
+    (Addr.v6 (List.replicate 16 0)).Valid ∧
+    (Addr.v6 [32, 1, 13, 184, 0, 0, 0, 0, 0, 0, 0, 0, 0, 0, 0, 1]).atyp = (Addr.v6 (List.replicate 16 0)).atyp := by
+  simp [Addr.Valid, Addr.atyp]
 
 /-- across address types the target is *not* injective: the domain name "1.2.3.4" and the IPv4
     address 1.2.3.4 give the same `Request.Target` (a fact about the interface, not a defect:
